@@ -46,7 +46,7 @@ inductive E where
   | ite (c : Cmp) (a b : E) (t f : E)
   | call (f : String) (a : E)
   | nonElem (tag : String) (a : E)
-  deriving Repr, Inhabited
+  deriving Repr, Inhabited, DecidableEq
 
 namespace E
 
